@@ -850,4 +850,231 @@ example : (handleAt exCfg id (snapshotHeap id [3, 4] [(3, exObj 1 0)])
     (handleAt exCfg id [(3, exObj 1 0)] [] .modified 1 3).1 .modified 1 3).2.isSome = false
     ∧ (handleAt exCfg id [(3, exObj 1 0)] [] .modified 1 3).2.isSome = true := by decide
 
+/-! ## Fifth wave: the informer start and the cache keys
+
+"Re-delivery of an unchanged object (informer start …) triggers nothing, and suppressed changes still
+update what snapshots show" — for the whole start sequence of a monitor (its own list at T0, changes
+in the cluster, the informer's list at T1 replayed as Added with `isInInitialList = true`) and for
+whole histories. -/
+
+/-- The replay of the informer's initial list is the history "Added for every object of the list":
+`isInInitialList` changes nothing. -/
+theorem replayInitial_eq_run {C : Type} [DecidableEq C] (cfg : Cfg) (cks : J → C) (cache : Cache C)
+    (list : List (Nat × J)) :
+    replayInitial cfg cks cache list
+      = run cfg cks cache (list.map (fun kv => (WatchEvent.added, kv.1, kv.2))) := by
+  induction list generalizing cache with
+  | nil => rfl
+  | cons kv rest ih =>
+    obtain ⟨id, obj⟩ := kv
+    simp only [replayInitial, onAdd, run, List.map_cons]
+    rw [ih]
+
+theorem run_append {C : Type} [DecidableEq C] (cfg : Cfg) (cks : J → C) (cache : Cache C)
+    (h1 h2 : List Change) :
+    run cfg cks cache (h1 ++ h2)
+      = ((run cfg cks (run cfg cks cache h1).1 h2).1,
+         (run cfg cks cache h1).2 ++ (run cfg cks (run cfg cks cache h1).1 h2).2) := by
+  induction h1 generalizing cache with
+  | nil => simp [run]
+  | cons c rest ih =>
+    obtain ⟨ev, id, obj⟩ := c
+    simp only [List.cons_append, run]
+    rw [ih]
+
+/-- A history that never mentions object `i` leaves what is cached for it as it is. -/
+theorem run_untouched {C : Type} [DecidableEq C] (cfg : Cfg) (cks : J → C) (cache : Cache C)
+    (hist : List Change) (i : Nat) (h : ∀ c ∈ hist, c.2.1 ≠ i) :
+    aget i (run cfg cks cache hist).1 = aget i cache := by
+  induction hist generalizing cache with
+  | nil => rfl
+  | cons c rest ih =>
+    obtain ⟨ev, id, obj⟩ := c
+    simp only [run]
+    rw [ih _ (fun c hc => h c (List.mem_cons_of_mem _ hc))]
+    exact others_untouched cfg cks cache ev id i obj
+      (Ne.symm (h (ev, id, obj) List.mem_cons_self))
+
+/-- **C08 snapshot_shows_last_state.** After ANY history, from any cache: if the last change that
+mentions an object is an Added or Modified (emitted or suppressed — type not listed, checksum
+unchanged, replay of the initial list), the cache — what snapshots show — holds the entry of exactly
+that last state. -/
+theorem snapshot_shows_last_state {C : Type} [DecidableEq C] (cfg : Cfg) (cks : J → C)
+    (cache : Cache C) (pre post : List Change) (ev : WatchEvent) (id : Nat) (obj : J) (e : Entry C)
+    (hev : ev ≠ .deleted) (ha : applyFilter cfg cks obj = some e)
+    (hpost : ∀ c ∈ post, c.2.1 ≠ id) :
+    aget id (run cfg cks cache (pre ++ (ev, id, obj) :: post)).1 = some (removeFull cfg e) := by
+  rw [run_append]
+  simp only [run]
+  rw [run_untouched cfg cks _ post id hpost]
+  exact suppressed_still_cached cfg cks _ ev id obj e hev ha
+
+/-- **C08 start_sequence_shows_informer_list.** Whatever the monitor listed and cached at T0
+(`listed0`: the object in an older state, or not at all), after the informer's initial list (`l1 ++
+(id, obj) :: l2`, the object occurring once) has been replayed the snapshot shows the object in the
+state the informer listed: what happened between the two lists is not lost. -/
+theorem start_sequence_shows_informer_list {C : Type} [DecidableEq C] (cfg : Cfg) (cks : J → C)
+    (listed0 l1 l2 : List (Nat × J)) (r : Cache C × List (Option (Event C)))
+    (id : Nat) (obj : J) (e : Entry C)
+    (hs : startSequence cfg cks listed0 (l1 ++ (id, obj) :: l2) = some r)
+    (hl2 : ∀ kv ∈ l2, kv.1 ≠ id) (ha : applyFilter cfg cks obj = some e) :
+    aget id r.1 = some (removeFull cfg e) := by
+  unfold startSequence at hs
+  cases hl : load cfg cks listed0 with
+  | none => simp [hl] at hs
+  | some c0 =>
+    simp only [hl, Option.some.injEq] at hs
+    subst hs
+    rw [replayInitial_eq_run, List.map_append, List.map_cons]
+    apply snapshot_shows_last_state cfg cks c0 _ _ .added id obj e (by decide) ha
+    intro c hc
+    obtain ⟨kv, hkv, rfl⟩ := List.mem_map.1 hc
+    exact hl2 kv hkv
+
+/-- `loadExistedObjects`: every listed object (each object once in the list) is cached with its entry. -/
+theorem load_cached {C : Type} (cfg : Cfg) (cks : J → C) (listed : List (Nat × J)) (cache : Cache C)
+    (hfun : ∀ a ∈ listed, ∀ b ∈ listed, a.1 = b.1 → a = b)
+    (hl : load cfg cks listed = some cache) :
+    ∀ kv ∈ listed, ∃ e, applyFilter cfg cks kv.2 = some e ∧ aget kv.1 cache = some (removeFull cfg e) := by
+  induction listed generalizing cache with
+  | nil => intro kv hkv; cases hkv
+  | cons hd rest ih =>
+    obtain ⟨id, obj⟩ := hd
+    unfold load at hl
+    cases ha : applyFilter cfg cks obj with
+    | none => simp [ha] at hl
+    | some e =>
+      cases hr : load cfg cks rest with
+      | none => simp [ha, hr] at hl
+      | some c0 =>
+        simp only [ha, hr, Option.some.injEq] at hl
+        subst hl
+        intro kv hkv
+        by_cases hk : kv.1 = id
+        · have : kv = (id, obj) := hfun kv hkv (id, obj) List.mem_cons_self hk
+          subst this
+          exact ⟨e, ha, by simp [aget_aset]⟩
+        · have hin : kv ∈ rest := by
+            rcases List.mem_cons.1 hkv with h | h
+            · exact absurd (by rw [h]) hk
+            · exact h
+          obtain ⟨e', ha', hc'⟩ := ih c0
+            (fun a ha b hb => hfun a (List.mem_cons_of_mem _ ha) b (List.mem_cons_of_mem _ hb)) hr kv hin
+          exact ⟨e', ha', by rw [aget_aset, if_neg hk]; exact hc'⟩
+
+/-- Replaying a list of objects every one of which is cached with the checksum of its present
+projection emits nothing. -/
+theorem replay_silent {C : Type} [DecidableEq C] (cfg : Cfg) (cks : J → C) (list : List (Nat × J))
+    (cache : Cache C)
+    (hfun : ∀ a ∈ list, ∀ b ∈ list, a.1 = b.1 → a = b)
+    (hinv : ∀ kv ∈ list, ∃ e ec, applyFilter cfg cks kv.2 = some e ∧ aget kv.1 cache = some ec ∧ ec.cks = e.cks) :
+    ∀ x ∈ (replayInitial cfg cks cache list).2, x = none := by
+  induction list generalizing cache with
+  | nil => intro x hx; simp [replayInitial] at hx
+  | cons hd rest ih =>
+    obtain ⟨id, obj⟩ := hd
+    obtain ⟨e, ec, ha, hc, hcks⟩ := hinv (id, obj) List.mem_cons_self
+    have hstep : (handle cfg cks cache .added id obj).2 = none :=
+      redelivery_silent cfg cks cache .added id obj e ec (by decide) ha hc hcks
+    have hcache : (handle cfg cks cache .added id obj).1 = aset id (removeFull cfg e) cache := by
+      rw [handle_upsert cfg cks cache .added id obj e (by decide) ha]
+    intro x hx
+    simp only [replayInitial, onAdd, List.mem_cons] at hx
+    rcases hx with hx | hx
+    · rw [hx, hstep]
+    · refine ih _ (fun a ha b hb => hfun a (List.mem_cons_of_mem _ ha) b (List.mem_cons_of_mem _ hb)) ?_ x hx
+      intro kv hkv
+      rw [hcache]
+      by_cases hk : kv.1 = id
+      · have : kv = (id, obj) := hfun kv (List.mem_cons_of_mem _ hkv) (id, obj) List.mem_cons_self hk
+        subst this
+        exact ⟨e, removeFull cfg e, ha, by simp [aget_aset], removeFull_cks cfg e⟩
+      · obtain ⟨e', ec', ha', hc', hcks'⟩ := hinv kv (List.mem_cons_of_mem _ hkv)
+        exact ⟨e', ec', ha', by rw [aget_aset, if_neg hk]; exact hc', hcks'⟩
+
+/-- **C08 start_unchanged_silent.** Informer start with nothing changed in between: the informer
+lists what the monitor listed (each object once, in any number) — the whole replay triggers nothing,
+whatever the filter, the event types and the checksum function. -/
+theorem start_unchanged_silent {C : Type} [DecidableEq C] (cfg : Cfg) (cks : J → C)
+    (listed : List (Nat × J)) (r : Cache C × List (Option (Event C)))
+    (hfun : ∀ a ∈ listed, ∀ b ∈ listed, a.1 = b.1 → a = b)
+    (hs : startSequence cfg cks listed listed = some r) :
+    ∀ x ∈ r.2, x = none := by
+  unfold startSequence at hs
+  cases hl : load cfg cks listed with
+  | none => simp [hl] at hs
+  | some c0 =>
+    simp only [hl, Option.some.injEq] at hs
+    subst hs
+    apply replay_silent cfg cks listed c0 hfun
+    intro kv hkv
+    obtain ⟨e, ha, hc⟩ := load_cached cfg cks listed c0 hfun hl kv hkv
+    exact ⟨e, removeFull cfg e, ha, hc, removeFull_cks cfg e⟩
+
+/-- Non-vacuity: o1 is listed with replicas 1 at T0, changed to 2 and o2 created before the informer
+starts; Added is not listed (nothing triggers) — the snapshot shows replicas 2 and o2 all the same;
+and an unchanged start is silent with Added listed. -/
+example :
+    (startSequence exCfg id [(1, exObj 1 0)] [(1, exObj 2 0), (2, exObj 5 0)]).map
+        (fun r => ((aget 1 r.1).map (·.fr), (aget 2 r.1).map (·.fr), r.2.map Option.isSome))
+      = some (some (some (.num 2)), some (some (.num 5)), [false, false])
+    ∧ (startSequence { exCfg with types := [.added] } id [(1, exObj 1 0), (2, exObj 5 0)]
+        [(1, exObj 1 0), (2, exObj 5 0)]).map (fun r => r.2.map Option.isSome) = some [false, false]
+    ∧ (startSequence { exCfg with types := [.added] } id [(1, exObj 1 0)]
+        [(1, exObj 2 0), (2, exObj 5 0)]).map (fun r => r.2.map Option.isSome) = some [true, true] := by
+  decide
+
+/-- Witness (NOT the code): an `OnAdd` that drops the initial list of a pre-loaded monitor keeps
+showing the T0 state — o1 with replicas 1, no o2 — where the code shows replicas 2 and o2. -/
+theorem skip_initial_list_witness :
+    (load exCfg id [(1, exObj 1 0)]).map (fun c =>
+        let r := replayInitialSkip true exCfg id c [(1, exObj 2 0), (2, exObj 5 0)]
+        ((aget 1 r.1).map (·.fr), (aget 2 r.1).map (·.fr)))
+      = some (some (some (.num 1)), none)
+    ∧ (load exCfg id [(1, exObj 1 0)]).map (fun c =>
+        let r := replayInitial exCfg id c [(1, exObj 2 0), (2, exObj 5 0)]
+        ((aget 1 r.1).map (·.fr), (aget 2 r.1).map (·.fr)))
+      = some (some (some (.num 2)), some (some (.num 5))) := by decide
+
+/-- Scope of the start-sequence theorems (a witness about the code as it is): they speak about the
+objects of the informer's list. An object the monitor listed at T0 that is DELETED before the informer
+starts is in no list and no notification: it stays in the cache — in every snapshot — and no Deleted
+is ever emitted, although Deleted is listed. (Seen on the real code too: notes/C08.md, fifth wave.) -/
+theorem deleted_between_lists_stays_witness :
+    (startSequence { exCfg with types := [.deleted] } id [(1, exObj 1 0)] []).map
+      (fun r => ((aget 1 r.1).isSome, r.2.map Option.isSome)) = some (true, []) := by decide
+
+/-- **C08 preloaded_key_is_event_key.** However the binding spells its kind, a pre-loaded object is
+filed under the key its events are looked up by. -/
+theorem preloaded_key_is_event_key (bindingKind : String) (o : ObjRef) :
+    loadKey bindingKind o = eventKey o := rfl
+
+/-- **C08 start_replay_silent_any_kind_spelling.** For every spelling of the binding's kind and every
+way the keys are told apart (`idOf`): an object loaded by the monitor's list and re-delivered
+unchanged at informer start (or by a resync) triggers nothing. -/
+theorem start_replay_silent_any_kind_spelling {C : Type} [DecidableEq C] (idOf : String → Nat)
+    (bindingKind : String) (o : ObjRef) (cfg : Cfg) (cks : J → C) (obj : J) (rest : List (Nat × J))
+    (cache : Cache C) (ev : WatchEvent) (hev : ev ≠ .deleted)
+    (hl : load cfg cks ((idOf (loadKey bindingKind o), obj) :: rest) = some cache) :
+    (handle cfg cks cache ev (idOf (eventKey o)) obj).2 = none :=
+  redelivery_after_load cfg cks _ obj rest cache ev hev hl
+
+/-- Why the keys must agree: a change of a listed type for a key the cache does not hold always
+triggers — an object filed under another key is as good as unknown. -/
+theorem unknown_key_fires {C : Type} [DecidableEq C] (cfg : Cfg) (cks : J → C) (cache : Cache C)
+    (ev : WatchEvent) (id : Nat) (obj : J) (e : Entry C) (hev : ev ≠ .deleted)
+    (ha : applyFilter cfg cks obj = some e) (hc : aget id cache = none) (hl : ev ∈ cfg.types) :
+    (handle cfg cks cache ev id obj).2.isSome = true := by
+  rw [handle_upsert cfg cks cache ev id obj e hev ha]
+  simp [hc, (shouldFire_iff cfg ev).2 hl]
+
+/-- Witness (NOT the code): keyed with the kind as the binding spells it, `kind: configmaps` files
+the object under a key no event of a ConfigMap ever has; only the exact Kind happens to agree. -/
+theorem binding_kind_key_witness :
+    loadKeyBindingKind "configmaps" ⟨"default", "ConfigMap", "cm-a"⟩ ≠ eventKey ⟨"default", "ConfigMap", "cm-a"⟩
+    ∧ loadKeyBindingKind "ConfigMap" ⟨"default", "ConfigMap", "cm-a"⟩ = eventKey ⟨"default", "ConfigMap", "cm-a"⟩ := by
+  decide
+
+example : loadKey "cm" ⟨"default", "ConfigMap", "cm-a"⟩ = "default/ConfigMap/cm-a" := by decide
+
 end ShellOp.Trigger.C08
